@@ -142,7 +142,7 @@ class C10:
             "all be accepted and decoded intact by the peers, one more must be refused without a frame; non-trivial = history "
             "with >= 1 failed fate or abandoned inbound session; distinct = distinct histories")
     ASSUMPTIONS = [
-        "upper bounds of the reference capacity model: pair/slot busy for packets*(round trip)+margin (clean), T3=1.25 s after the "
+        "upper bounds of the reference capacity model: pair/slot busy for packets*(round trip)+margin (clean, or ended by a peer abort), T3=1.25 s after the "
         "last activity (silent/lost), 3 s (FD lost acknowledgement), plus 0.3 s margin",
         "reference peers keep to the standard's timing; fates are realised by the peer (ignoring a frame = loss)",
     ]
@@ -198,7 +198,7 @@ class C10:
                 if f == "silent":
                     return 1.25 + 0.3
                 if f == "abort":
-                    return base + 1.25 + 0.3      # the stack may notice the abort only at its next deadline (<= T3)
+                    return base + 0.05            # the peer has ended the transfer: the pair / slot is free as soon as the abort is in
                 if f == "ignore_dt":
                     return base + 1.25 + 0.3
                 return base + (3.0 if fd else 1.25) + 0.3     # no_ack
